@@ -76,56 +76,59 @@ def isWordChar (t : CharTables) : Option Char → Bool
 
 namespace Re
 
-/-- continuation: previous character (for `\b`), remaining input -/
-abbrev K := Option Char → List Char → Option (List Char)
+/-- continuation: previous character (for `\b`), number of characters consumed so far,
+    remaining input; the answer is (consumed, remaining) of the overall match -/
+abbrev K := Option Char → Nat → List Char → Option (Nat × List Char)
 
 /-- repetition of a one-step matcher; `fuel` bounds the number of iterations -/
-def repLoop (one : Option Char → List Char → K → Option (List Char)) (greedy : Bool) :
-    Nat → Nat → Option Nat → Option Char → List Char → K → Option (List Char)
-  | 0, _, _, _, _, _ => none
-  | fuel + 1, min, max, p, s, k =>
+def repLoop (one : Option Char → Nat → List Char → K → Option (Nat × List Char)) (greedy : Bool) :
+    Nat → Nat → Option Nat → Option Char → Nat → List Char → K → Option (Nat × List Char)
+  | 0, _, _, _, _, _, _ => none
+  | fuel + 1, min, max, p, n, s, k =>
     let dec : Option Nat → Option Nat := fun m => m.map (· - 1)
     if min > 0 then
-      one p s (fun p' s' => repLoop one greedy fuel (min - 1) (dec max) p' s' k)
-    else if max == some 0 then k p s
+      one p n s (fun p' n' s' => repLoop one greedy fuel (min - 1) (dec max) p' n' s' k)
+    else if max == some 0 then k p n s
     else
-      let more : Unit → Option (List Char) := fun _ =>
-        one p s (fun p' s' =>
-          if s'.length < s.length then repLoop one greedy fuel 0 (dec max) p' s' k else none)
-      if greedy then (more ()).orElse (fun _ => k p s)
-      else (k p s).orElse more
+      let more : Unit → Option (Nat × List Char) := fun _ =>
+        one p n s (fun p' n' s' =>
+          if n' > n then repLoop one greedy fuel 0 (dec max) p' n' s' k else none)
+      if greedy then (more ()).orElse (fun _ => k p n s)
+      else (k p n s).orElse more
 
-/-- `m t r prev s k`: try to match `r` at the head of `s`, then continue with `k` -/
-def m (t : CharTables) : Re → Option Char → List Char → K → Option (List Char)
-  | .eps, p, s, k => k p s
-  | .lit c, _, s, k => match s with
-      | x :: xs => if x.toNat == c then k (some x) xs else none
+/-- `m t r prev n s k`: try to match `r` at the head of `s` (having consumed `n` characters
+    so far), then continue with `k` -/
+def m (t : CharTables) (bound : Nat) : Re → Option Char → Nat → List Char → K → Option (Nat × List Char)
+  | .eps, p, n, s, k => k p n s
+  | .lit c, _, n, s, k => match s with
+      | x :: xs => if x.toNat == c then k (some x) (n + 1) xs else none
       | [] => none
-  | .notLit c, _, s, k => match s with
-      | x :: xs => if x.toNat != c then k (some x) xs else none
+  | .notLit c, _, n, s, k => match s with
+      | x :: xs => if x.toNat != c then k (some x) (n + 1) xs else none
       | [] => none
-  | .set items neg, _, s, k => match s with
-      | x :: xs => if (items.any (·.test t x.toNat)) != neg then k (some x) xs else none
+  | .set items neg, _, n, s, k => match s with
+      | x :: xs => if (items.any (·.test t x.toNat)) != neg then k (some x) (n + 1) xs else none
       | [] => none
-  | .any, _, s, k => match s with
-      | x :: xs => if x != '\n' then k (some x) xs else none
+  | .any, _, n, s, k => match s with
+      | x :: xs => if x != '\n' then k (some x) (n + 1) xs else none
       | [] => none
-  | .seq a b, p, s, k => m t a p s (fun p' s' => m t b p' s' k)
-  | .alt a b, p, s, k => (m t a p s k).orElse (fun _ => m t b p s k)
-  | .rep min max greedy r, p, s, k =>
-      repLoop (fun p' s' k' => m t r p' s' k') greedy (s.length + min + 2) min max p s k
-  | .boundary neg, p, s, k =>
+  | .seq a b, p, n, s, k => m t bound a p n s (fun p' n' s' => m t bound b p' n' s' k)
+  | .alt a b, p, n, s, k => (m t bound a p n s k).orElse (fun _ => m t bound b p n s k)
+  | .rep min max greedy r, p, n, s, k =>
+      -- iterations are bounded by `bound` ≥ remaining input length (each must consume) plus `min`
+      repLoop (fun p' n' s' k' => m t bound r p' n' s' k') greedy (bound + min + 2) min max p n s k
+  | .boundary neg, p, n, s, k =>
       let a := isWordChar t p
       let b := isWordChar t s.head?
-      if (a != b) != neg then k p s else none
-  | .look neg r, p, s, k =>
-      let ok := (m t r p s (fun _ rest => some rest)).isSome
-      if ok != neg then k p s else none
-  | .unsupported _, _, _, _ => none
+      if (a != b) != neg then k p n s else none
+  | .look neg r, p, n, s, k =>
+      let ok := (m t bound r p n s (fun _ n' rest => some (n', rest))).isSome
+      if ok != neg then k p n s else none
+  | .unsupported _, _, _, _, _ => none
 
-/-- `re.match` of a single pattern: the remaining input after the match -/
-def matchPrefix (t : CharTables) (r : Re) (prev : Option Char) (s : List Char) : Option (List Char) :=
-  m t r prev s (fun _ rest => some rest)
+/-- `re.match` of a single pattern: number of characters matched and the remaining input -/
+def matchPrefix (t : CharTables) (bound : Nat) (r : Re) (prev : Option Char) (s : List Char) : Option (Nat × List Char) :=
+  m t bound r prev 0 s (fun _ n rest => some (n, rest))
 
 def hasUnsupported : Re → Bool
   | .unsupported _ => true
